@@ -54,15 +54,15 @@ CompactFlat(S, den) == {[i \in 1..Len(r) |-> <<r[i].a, r[i].j, ToUnits(r[i].g, d
 Offset(gm, h) == SumLens(SubSeq(gm, 1, h - 1))
 Leaf(g) == [kind |-> "leaf", alts |-> <<g>>]
 TreeOf(g, outOrd, inOrd, pcOut, pcIn, C, den) ==
-  LET gm == GroupMap(g)
+  LET gm == TLCEval(GroupMap(g))
       Cell(k, h) ==
         IF outOrd /\ h # k THEN [kind |-> "none"]
         ELSE IF Len(gm[k]) = 1 THEN Leaf(Q(C[gm[k][1]][Offset(gm, h) + 1], den))
-        ELSE [kind |-> "list", ordered |-> inOrd, pc |-> pcIn, gm |-> [i \in 1..Len(gm[k]) |-> <<i>>],
-              cells |-> <<[i \in 1..Len(gm[k]) |-> [j \in 1..Len(gm[k]) |-> Leaf(Q(C[gm[k][i]][Offset(gm, h) + j], den))]]>>,
+        ELSE [kind |-> "list", ordered |-> inOrd, pc |-> pcIn, gm |-> TLCEval([i \in 1..Len(gm[k]) |-> <<i>>]),
+              cells |-> <<TLCEval([i \in 1..Len(gm[k]) |-> TLCEval([j \in 1..Len(gm[k]) |-> Leaf(Q(C[gm[k][i]][Offset(gm, h) + j], den))])])>>,
               cert |-> <<>>]
   IN [kind |-> "list", ordered |-> outOrd, pc |-> pcOut, gm |-> gm,
-      cells |-> <<[k \in 1..Len(gm) |-> [h \in 1..Len(gm) |-> Cell(k, h)]]>>, cert |-> <<>>]
+      cells |-> <<TLCEval([k \in 1..Len(gm) |-> TLCEval([h \in 1..Len(gm) |-> Cell(k, h)])])>>, cert |-> <<>>]
 \* leaf answer number of a path <<1, h, 1>> (item grader) or <<1, h, 1, j, 1>> (inner list)
 LeafIndex(gm, path) == Offset(gm, path[2]) + (IF Len(path) = 3 THEN 1 ELSE path[4])
 CompactTree(S, gm, den) == {[p \in 1..Len(r) |-> <<LeafIndex(gm, r[p].path), ToUnits(r[p].g, den), OkOf(r[p].g)>>] : r \in S}
@@ -143,38 +143,42 @@ LawShape == IsFlat => \A r \in Allowed(MR, Cfg) :
                /\ c.ordered => \A i \in 1..c.n : r[i].j = i
                /\ \A i \in 1..c.n : r[i].ok = OkOf(r[i].g)
 \* the total credit is the optimum found by an independent formulation, and no assignment to any list does better
-LawOptimal == IsFlat /\ ~c.ordered => \A r \in Allowed(MR, [Cfg EXCEPT !.pc = TRUE]) :
-               /\ VectorTotal(r) = RMaxSet({BestRec(MR[a], 1, 1..c.n) : a \in 1..c.A})
-               /\ \A a \in 1..c.A : \A s \in Bijections(c.n) : Leq(AssignTotal(MR[a], s), VectorTotal(r))
-LawOrderedTotal == IsFlat /\ c.ordered => \A r \in Allowed(MR, [Cfg EXCEPT !.pc = TRUE]) :
-               \A a \in 1..c.A : Leq(AssignTotal(MR[a], Identity(c.n)), VectorTotal(r))
+LawOptimal == IsFlat /\ ~c.ordered => LET M == MR  best == RMaxSet({BestRec(M[a], 1, 1..c.n) : a \in 1..c.A})
+                                      IN \A r \in Allowed(M, [Cfg EXCEPT !.pc = TRUE]) :
+                                           /\ VectorTotal(r) = best
+                                           /\ \A a \in 1..c.A : \A s \in Bijections(c.n) : Leq(AssignTotal(M[a], s), best)
+LawOrderedTotal == IsFlat /\ c.ordered => LET M == MR IN \A r \in Allowed(M, [Cfg EXCEPT !.pc = TRUE]) :
+               \A a \in 1..c.A : Leq(AssignTotal(M[a], Identity(c.n)), VectorTotal(r))
 \* permuting the input boxes permutes the allowed vectors (results follow their boxes)
-LawEquivariant == IsFlat /\ ~c.ordered => \A pi \in TestPerms(c.n) :
-               Allowed(PermuteInputs(MR, pi), Cfg) = {MoveVector(r, pi) : r \in Allowed(MR, Cfg)}
+LawEquivariant == IsFlat /\ ~c.ordered => LET M == MR  A0 == Allowed(M, Cfg)
+                                          IN \A pi \in TestPerms(c.n) : Allowed(PermuteInputs(M, pi), Cfg) = {MoveVector(r, pi) : r \in A0}
 \* renumbering the answers renames the entries and nothing else; ordered: inputs and answers permuted together
-LawRelabel == IsFlat => \A pi \in TestPerms(c.n) :
+LawRelabel == IsFlat => LET M == MR  A0 == Allowed(M, Cfg) IN \A pi \in TestPerms(c.n) :
                IF c.ordered
-               THEN Allowed(PermuteAnswers(PermuteInputs(MR, pi), pi), Cfg) = {RelabelVector(MoveVector(r, pi), pi) : r \in Allowed(MR, Cfg)}
-               ELSE Allowed(PermuteAnswers(MR, pi), Cfg) = {RelabelVector(r, pi) : r \in Allowed(MR, Cfg)}
+               THEN Allowed(PermuteAnswers(PermuteInputs(M, pi), pi), Cfg) = {RelabelVector(MoveVector(r, pi), pi) : r \in A0}
+               ELSE Allowed(PermuteAnswers(M, pi), Cfg) = {RelabelVector(r, pi) : r \in A0}
 \* an ordered grader never awards more than the unordered one on the same credits
-LawOrderedNoBetter == IsFlat => \A a \in 1..c.A : Leq(ListTotal(MR, a, TRUE), ListTotal(MR, a, FALSE))
+LawOrderedNoBetter == IsFlat => LET M == MR IN \A a \in 1..c.A : Leq(ListTotal(M, a, TRUE), ListTotal(M, a, FALSE))
 \* partial_credit = False: all or nothing, and nothing else changes
-LawPartialCredit == IsFlat => /\ Allowed(MR, [Cfg EXCEPT !.pc = FALSE]) = {IF Perfect(r) THEN r ELSE ZeroOut(r) : r \in Allowed(MR, [Cfg EXCEPT !.pc = TRUE])}
-                              /\ \A r \in Allowed(MR, [Cfg EXCEPT !.pc = FALSE]) : Perfect(r) \/ \A i \in 1..c.n : r[i].g = Zero /\ r[i].ok = "false"
+LawPartialCredit == IsFlat => LET M == MR  off == Allowed(M, [Cfg EXCEPT !.pc = FALSE])  on == Allowed(M, [Cfg EXCEPT !.pc = TRUE])
+                              IN /\ off = {IF Perfect(r) THEN r ELSE ZeroOut(r) : r \in on}
+                                 /\ \A r \in off : Perfect(r) \/ \A i \in 1..c.n : r[i].g = Zero /\ r[i].ok = "false"
 \* an additional answer list never lowers the total
-LawMoreLists == IsFlat /\ c.A >= 2 => \A r \in Allowed(MR, [Cfg EXCEPT !.pc = TRUE]) :
-               \A r1 \in Allowed(<<MR[1]>>, [Cfg EXCEPT !.pc = TRUE]) : Leq(VectorTotal(r1), VectorTotal(r))
+LawMoreLists == IsFlat /\ c.A >= 2 => LET M == MR IN \A r \in Allowed(M, [Cfg EXCEPT !.pc = TRUE]) :
+               \A r1 \in Allowed(<<M[1]>>, [Cfg EXCEPT !.pc = TRUE]) : Leq(VectorTotal(r1), VectorTotal(r))
 \* the layout-tree formulation agrees with the flat one
-LawTreeAgrees == IsFlat => /\ {[i \in 1..Len(r) |-> EntryOfPath(r[i])] : r \in Results(FlatTree(MR, Cfg))} = Allowed(MR, Cfg)
-                           /\ \A r \in Allowed(MR, Cfg) : Mul(Value(FlatTree(MR, Cfg)), FromInt(c.n)) = VectorTotal(r)
+LawTreeAgrees == IsFlat => LET M == MR  t == FlatTree(M, Cfg)  A0 == Allowed(M, Cfg)  v == Mul(Value(t), FromInt(c.n))
+                           IN /\ {[i \in 1..Len(r) |-> EntryOfPath(r[i])] : r \in Results(t)} = A0
+                              /\ \A r \in A0 : v = VectorTotal(r)
 \* the decision procedure Eval accepts exactly the members of Results and rebuilds their credits
 PathsOf(r) == [p \in 1..Len(r) |-> r[p].path]
 GradesOf(r) == [p \in 1..Len(r) |-> r[p].g]
 FlatPathSpace == [1..c.n -> {<<a, j, 1>> : a \in 1..c.A, j \in 1..c.n}]
 LawEvalSound == IsCase => LET t == CaseTree(c) IN \A r \in Results(t) :
                LET e == Eval(t, PathsOf(r)) IN e.why = "" /\ e.res = GradesOf(r)
-LawEvalComplete == IsFlat /\ c.n <= 3 /\ (c.n <= 2 \/ c.den = 1) => LET t == CaseTree(c)  ps == {PathsOf(r) : r \in Results(t)}
-                                         IN \A P \in FlatPathSpace : (Eval(t, P).why = "") <=> (P \in ps)
+LawEvalComplete == IsFlat /\ c.n <= 3 /\ (c.n <= 2 \/ c.den = 1) =>
+               LET t == CaseTree(c)  ps == {PathsOf(r) : r \in Results(t)}
+               IN \A P \in FlatPathSpace : (Eval(t, P).why = "") <=> (P \in ps)
 \* certificates: feasible potentials bound every assignment (soundness), and tight ones exist on the unit grid (completeness)
 PotGrid == [1..c.n -> {Q(k, c.den) : k \in 0..c.den}]
 LawDuality == IsFlat /\ c.n <= 3 /\ (c.n <= 2 \/ c.den = 1) => \A a \in 1..c.A :
